@@ -92,6 +92,17 @@ Generic rules added for the Roles package (all additive; the output for the earl
    the value, `expr = map[v]` then `expr = f(expr.rhs)`); the last one before a nested assignment is the `let mut`;
  * `if A and B:` without `else`, where an operand is monadic (`(← …)`): nested `if A then if B then …`, so that the
    effect of B stays behind the short-circuit.
+
+Additions (Cmeta package; none changes the output of a spec that does not use them):
+ * a parameter that the body assigns to (`cmeta_id = str(cmeta_id)`) is re-declared `let mut p := p` at the top;
+ * `'while_fuel': [lean fuel expression for the 0th, 1st … `while` of the function]`: `while c: body` (no break /
+   continue / return inside) becomes `vars ← Py.whileFuel fuel vars (fun vars => do return c) (fun vars => do body;
+   return vars)` over the variables the body assigns; test and body are translated by the ordinary rules; running out
+   of fuel raises `PyErr "FuelExhausted"` (Prelude);
+ * a list comprehension whose element is bound to a monadic template (`[self.f(x) for x in xs]`) becomes
+   `← (xs).mapM (fun x => …)` (python evaluates the elements in order and the first exception ends it: `List.mapM`);
+ * `'emit_defaults': [param, …]`: the default values of these python parameters are emitted as
+   `def <lean_name>_default_<param> := <translation>` so that call-site templates can pass them explicitly.
 """
 import ast
 import copy
@@ -691,7 +702,8 @@ class Fn:
             self.emit(ind + 1, 'else')
             self.emit(ind + 2, 'throw e__')
             return
-        if isinstance(s, ast.While) and not s.orelse and 'while_fuel' in self.spec and 'while_body' not in self.spec:
+        if isinstance(s, ast.While) and not s.orelse and isinstance(self.spec.get('while_fuel'), str) \
+                and 'while_body' not in self.spec:
             names = list(self.assigned_names(s.body))
             if not names or not all(nm in self.declared and nm in self.mut for nm in names):
                 raise TranslationError('while loop assigns names that are not declared before it: ' + ', '.join(names))
@@ -706,6 +718,29 @@ class Fn:
             self.for_depth = depth
             self.declared = saved
             self.emit(ind + 1, 'return %s) %s' % (tup, tup))
+            return
+        if isinstance(s, ast.While) and not s.orelse and isinstance(self.spec.get('while_fuel'), list):
+            k = getattr(self, 'while_seen', 0)
+            self.while_seen = k + 1
+            if k >= len(self.spec['while_fuel']):
+                raise TranslationError('no fuel expression for the while loop number %d' % k)
+            for sub in s.body:
+                for x in ast.walk(sub):
+                    if isinstance(x, (ast.Return, ast.Break, ast.Continue)):
+                        raise TranslationError('return / break / continue inside a fuelled while loop: ' + src(s.test))
+            names = [nm for nm in self.assigned_names(s.body) if nm in self.declared]
+            if not names or not all(nm in self.mut for nm in names):
+                raise TranslationError('while loop without (mutable) loop variables: ' + src(s.test))
+            tup = mangle(names[0]) if len(names) == 1 else '(' + ', '.join(mangle(x) for x in names) + ')'
+            self.emit(ind, '%s ← Py.whileFuel (%s) %s (fun %s => do return %s) (fun %s => do'
+                      % (tup, self.spec['while_fuel'][k], tup, tup, self.cond(s.test), tup))
+            for nm in names:
+                self.emit(ind + 1, 'let mut %s := %s' % (mangle(nm), mangle(nm)))
+            saved = set(self.declared)
+            for sub in s.body:
+                self.stmt(sub, ind + 1)
+            self.declared = saved
+            self.emit(ind + 1, 'return %s)' % tup)
             return
         raise TranslationError('no rule and no pattern for the statement `%s` (%s, line %s)'
                                % (src(s).split('\n')[0], type(s).__name__, getattr(s, 'lineno', '?')))
@@ -754,6 +789,13 @@ class Fn:
         hit = self.try_patterns(n)
         if hit is not None and hit.startswith('←'):
             return '(' + hit + ')' if inline else hit
+        if hit is None and isinstance(n, ast.ListComp) and len(n.generators) == 1 and not n.generators[0].ifs and \
+                isinstance(n.generators[0].target, ast.Name):
+            elt = self.try_patterns(n.elt)
+            if elt is not None and elt.startswith('←'):
+                g = n.generators[0]
+                text = '← (%s).mapM (fun %s => %s)' % (self.expr(g.iter), mangle(g.target.id), elt[1:].strip())
+                return '(' + text + ')' if inline else text
         return self.expr(n)
 
     def state_tuple(self):
@@ -824,6 +866,12 @@ class Fn:
         sig = self.spec['signature']
         head = 'def %s %s := do' % (self.spec['lean_name'], sig)
         out = [head] + self.lines
+        if self.spec.get('emit_defaults'):
+            a = self.node.args
+            for arg, dflt in zip(a.args[len(a.args) - len(a.defaults):], a.defaults):
+                if arg.arg not in self.spec['emit_defaults']:
+                    continue
+                out += ['', 'def %s_default_%s := %s' % (self.spec['lean_name'], arg.arg, self.expr(dflt))]
         if 'while_body' in self.spec and self.spec.get('emit_loop_test'):
             t = Fn(dict(self.spec, stmt_patterns=[]), self.node)
             out += ['', 'def %s_test %s :=' % (self.spec['lean_name'], self.spec['emit_loop_test']),
